@@ -32,7 +32,7 @@ impl Prop for C04 {
         "C04"
     }
     fn rule(&self) -> String {
-        "55 quantity spellings (base, derived, prefixed, powered, compound, imperial, one unit under several prefixes and powers, derived-per-base compounds); one unit under two prefixes and two powers on either side of * and / (7 prefixes x powers 1..3, squared); all ordered pairs x {*, /} with the right operand bare and parenthesised; all triples over a 15-spelling core x {*,/}^2 x both groupings; (q)^n for every spelling and n in -3..3; every documented unit name with prefix none/k/m as (2 u)^n. Compared in SI normal form (value and base dimensions) with the reference evaluation of the tree; the displayed unit is never compared. Non-trivial = at least one operator applied to a quantity with a non-empty unit; distinct = distinct query strings".into()
+        "55 quantity spellings (base, derived, prefixed, powered, compound, imperial, one unit under several prefixes and powers, derived-per-base compounds); one unit under two prefixes and two powers on either side of * and / (7 prefixes x powers 1..3, squared); zero-valued quantities, written and computed, under ^n (n in -3..3), * and / ; all ordered pairs x {*, /} with the right operand bare and parenthesised; all triples over a 15-spelling core x {*,/}^2 x both groupings; (q)^n for every spelling and n in -3..3; every documented unit name with prefix none/k/m as (2 u)^n. Compared in SI normal form (value and base dimensions) with the reference evaluation of the tree; the displayed unit is never compared. Non-trivial = at least one operator applied to a quantity with a non-empty unit; distinct = distinct query strings".into()
     }
     fn assumptions(&self) -> Vec<String> {
         vec!["unit scales come from the independent table (tables.rs), documented meanings".into(), "offset scales (°C, °F) are C09's subject".into()]
@@ -66,6 +66,21 @@ impl Prop for C04 {
                 emit("power", &bin(paren(a.clone()), Op::Pow, num(&n.to_string())), sink);
                 // power equals repeated multiplication: also as a product of powers
                 emit("power", &bin(paren(bin(paren(a.clone()), Op::Pow, num(&n.to_string()))), Op::Mul, a.clone()), sink);
+            }
+        }
+        // zero-valued quantities (written and computed): the unit is raised / multiplied all the same,
+        // a negative power or a division by them is an error
+        for w in ["m", "s", "kg", "N", "ft", "km", "btu"] {
+            for n in -3..=3i64 {
+                emit("zero", &bin(paren(qty("0", w)), Op::Pow, num(&n.to_string())), sink);
+                emit("zero", &bin(paren(bin(qty("1", w), Op::Sub, qty("1", w))), Op::Pow, num(&n.to_string())), sink);
+            }
+            for v in ["s", "m", "J"] {
+                emit("zero", &bin(qty("0", w), Op::Mul, qty("3", v)), sink);
+                emit("zero", &bin(qty("3", v), Op::Mul, qty("0", w)), sink);
+                emit("zero", &bin(qty("0", w), Op::Div, qty("3", v)), sink);
+                emit("zero", &bin(qty("3", v), Op::Div, qty("0", w)), sink);
+                emit("zero", &bin(qty("3", v), Op::Div, paren(bin(qty("2", w), Op::Sub, qty("2", w)))), sink);
             }
         }
         // one unit under two prefixes and two powers on either side of * and / (in particular
